@@ -718,6 +718,16 @@ package leveldb
 //@   ensures [C01,C04:replayed-group-is-not-older-than-expected] err == nil ==> seq >= expectSeq
 //@   guarantees [C01,C04:replayed-count-is-the-header-count] err == nil ==> decodedLen == batchLen
 
+// Leaving a compaction when the DB closes (or the commit of a compaction cannot go on): compactionExitTransact
+// raises errCompactionTransactExiting, compactionTransact reverts and raises it again, and mCompaction / tCompaction
+// recover it and end in an orderly way - Close waits for them. Whatever lies between (compactionCommit with the commit
+// lock, a table compaction with its version reference) is left by unwinding: a lock held there must be given back by
+// a deferred call, or Close and every later commit wait forever (C09).
+//@ func (*DB).compactionExitTransact
+//@   props C09
+//@   safety off
+//@   unwinds
+
 // O8: a transaction may record its sequence number in the manifest only when no frozen memdb is waiting to be
 // flushed (its journal records would be older than the recorded number and recovery would drop them).
 // The acknowledgement of a memdb-compaction command comes from another goroutine (mCompaction acknowledges
@@ -997,8 +1007,26 @@ package leveldb
 //@     ghost gRecoveryCommitted = result == nil
 //@   ensures [C08:a-recovery-whose-commit-succeeded-does-not-fail-afterwards] gRecoveryCommitted ==> result == nil
 
+// C07: the record that recovery commits between two replayed journals is used again for the next commit. The
+// tables it added are part of the version from the first commit on: carried into the next commit they are counted
+// twice by the reference loop and are never removed when a compaction retires them (until the next open).
+//@ ghost var gRecCarriesCommittedTables bool
 //@ func (*DB).recoverJournal
 //@   props C04 C07 C08 C01
+//@   at entry
+//@     ghost gRecCarriesCommittedTables = false
+//@   loop 2
+//@     invariant [C07:a-committed-record-carries-no-tables-into-the-next-commit] !gRecCarriesCommittedTables
+//@   loop 3
+//@     invariant [C07:a-committed-record-carries-no-tables-into-the-next-commit] !gRecCarriesCommittedTables
+//@   at before call (*session).commit#1
+//@     assert [C07:a-committed-record-carries-no-tables-into-the-next-commit] !gRecCarriesCommittedTables
+//@   at call (*session).commit#1
+//@     ghost gRecCarriesCommittedTables = true
+//@   at call (*sessionRecord).resetAddedTables#1
+//@     ghost gRecCarriesCommittedTables = false
+//@   at before call (*session).commit#2
+//@     assert [C07:a-committed-record-carries-no-tables-into-the-next-commit] !gRecCarriesCommittedTables
 //@   at call (*session).markFileNum#1
 //@     assert [C01,C04:highest-replayed-journal-number-is-retired] fds[len(fds)-1].Num < db.s.stNextFileNum
 //@   at before call (*session).commit#1
